@@ -39,7 +39,7 @@ RESERVED_STATES = ["#STARTTOFINAL#", "#ENDTOFINAL#", "#STARTEMPTYS#", "#ENDEMPTY
 RESERVED_STACK = ["#BOTTOMTOFINAL#", "#BOTTOMEMPTYS#", "#BOTTOMTOFINAL#0", "#BOTTOMEMPTYS#0"]
 
 
-def gen_pda(rng, max_states=3, max_stack=3, max_trans=6, reserved=True):
+def gen_pda(rng, max_states=3, max_stack=3, max_trans=6, reserved=True, int_inputs=False):
     ns = rng.randint(1, max_states)
     ng = rng.randint(1, max_stack)
     states = STATES[:ns]
@@ -63,7 +63,8 @@ def gen_pda(rng, max_states=3, max_stack=3, max_trans=6, reserved=True):
     names = ["S:" + s for s in states] + ["G:" + g for g in stack]
     return {"states": states, "stack": stack, "inputs": inputs, "trans": trans, "start": states[0],
             "z0": stack[0], "finals": finals, "hash": assign_hashes(rng, sorted(names), mode), "hashmode": mode,
-            "ctor_tf": rng.chance(0.15), "ctor_eps": rng.pick([None, None, None, "str", "obj"]), "bulk": rng.chance(0.15)}
+            "ctor_tf": rng.chance(0.15), "ctor_eps": rng.pick([None, None, None, "str", "obj"]), "bulk": rng.chance(0.15),
+            "inmode": "int" if int_inputs and rng.chance(0.2) else "str"}
 
 
 def sv(case, s):
@@ -74,11 +75,17 @@ def gv(case, g):
     return VS(g, case["hash"]["G:" + g]) if case.get("hash") and ("G:" + g) in case["hash"] else g
 
 
+def iv(case, a):
+    """value of an input symbol: the name itself, or (inmode "int") a small int -- the binary alphabet 0 / 1"""
+    return {"a": 0, "b": 1}[a] if case.get("inmode") == "int" else a
+
+
 def ref_of(case):
     S = lambda x: _k(sv(case, x))
     Gm = lambda x: _k(gv(case, x))
     return Pda([S(x) for x in case["states"]], [Gm(x) for x in case["stack"]],
-               [(S(q), a, Gm(X), S(r), tuple(Gm(y) for y in g)) for q, a, X, r, g in case["trans"]],
+               [(S(q), None if a is None else _k(iv(case, a)), Gm(X), S(r), tuple(Gm(y) for y in g))
+                for q, a, X, r, g in case["trans"]],
                S(case["start"]), Gm(case["z0"]), [S(x) for x in case["finals"]])
 
 
@@ -86,7 +93,7 @@ def _ctor_inputs(case):
     """the declared input alphabet; in part of the cases it also lists epsilon (by name or as an object), as the
     repository's own tests do"""
     from pyformlang.pda import Epsilon
-    ins = set(case["inputs"])
+    ins = {iv(case, a) for a in case["inputs"]}
     if case.get("ctor_eps") == "str":
         ins.add("epsilon")
     elif case.get("ctor_eps") == "obj":
@@ -103,7 +110,7 @@ def build(case):
         from pyformlang.pda.transition_function import TransitionFunction
         tf = TransitionFunction()
         for q, a, X, r, g in case["trans"]:
-            tf.add_transition(State(sv(case, q)), Epsilon() if a is None else Symbol(a), StackSymbol(gv(case, X)),
+            tf.add_transition(State(sv(case, q)), Epsilon() if a is None else Symbol(iv(case, a)), StackSymbol(gv(case, X)),
                               State(sv(case, r)), [StackSymbol(gv(case, y)) for y in g])
         return PDA(states={sv(case, s) for s in case["states"]}, input_symbols=_ctor_inputs(case),
                    stack_alphabet={gv(case, g) for g in case["stack"]}, transition_function=tf,
@@ -113,11 +120,11 @@ def build(case):
               final_states={sv(case, s) for s in case["finals"]}, states={sv(case, s) for s in case["states"]},
               **({"input_symbols": _ctor_inputs(case)} if case.get("ctor_eps") else {}))
     if case.get("bulk"):
-        pda.add_transitions([(sv(case, q), "epsilon" if a is None else a, gv(case, X), sv(case, r),
+        pda.add_transitions([(sv(case, q), "epsilon" if a is None else iv(case, a), gv(case, X), sv(case, r),
                               [gv(case, y) for y in g]) for q, a, X, r, g in case["trans"]])
         return pda
     for q, a, X, r, g in case["trans"]:
-        pda.add_transition(sv(case, q), "epsilon" if a is None else a, gv(case, X), sv(case, r),
+        pda.add_transition(sv(case, q), "epsilon" if a is None else iv(case, a), gv(case, X), sv(case, r),
                            [gv(case, y) for y in g])
     return pda
 
@@ -203,6 +210,8 @@ def shrink_pda(case):
         yield mk(ctor_eps=None)
     if case.get("bulk"):
         yield mk(bulk=False)
+    if case.get("inmode") == "int":
+        yield mk(inmode="str")
     if case.get("hash"):
         ident = {n: i for i, n in enumerate(sorted(case["hash"]))}
         if ident != case["hash"]:
